@@ -1,5 +1,12 @@
 #!/bin/bash
-# usage: tools/seedown.sh <Cxx-n> [props...]  -- run own-property (or listed) checks against a stored seed
+# usage: tools/seedown.sh <Cxx-n> [props...]  -- run own-property (or listed) checks against a stored seed, in a scratch copy of /repo
 s=$1; shift; p=${s%%-*}; props=${@:-$p}
-wt=/tmp/wt/$p
-tools/seedrun.sh $wt /verif/seeded/$s/patch.diff $props
+patch=/verif/seeded/$s/patch.diff; [ -f /verif/seeded/$s/patch.rebased.diff ] && patch=/verif/seeded/$s/patch.rebased.diff
+d=$(mktemp -d /tmp/seedown-XXXXXX)
+mkdir -p $d/firmware; cp -r /repo/middleware /repo/docs $d/; cp -r /repo/firmware/src $d/firmware/
+(cd $d && git apply --whitespace=nowarn $patch) || { echo "APPLY FAILED $patch"; rm -rf $d; exit 9; }
+for q in $props; do
+  VERIF_SCRATCH_EVIDENCE=$d/.ev /verif/check $q --repo $d --quiet 2>&1 | grep -E "VIOLATION|rule |ANALYSIS-ERROR|KNOWN" | head -8
+  echo "  -> $q rc=${PIPESTATUS[0]}"
+done
+rm -rf $d
